@@ -216,7 +216,9 @@ func runC07(c *mon.Ctx) {
 		name   string
 		t      time.Time
 		inside bool
-	}{{"inside", nb.Add(time.Hour), true}, {"before", nb.Add(-time.Second), false}, {"after", na.Add(time.Second), false}, {"just-inside-start", nb.Add(time.Second), true}, {"just-inside-end", na.Add(-time.Second), true}}
+	}{{"inside", nb.Add(time.Hour), true}, {"before", nb.Add(-time.Second), false}, {"after", na.Add(time.Second), false}, {"just-inside-start", nb.Add(time.Second), true}, {"just-inside-end", na.Add(-time.Second), true},
+		// X.509 validity ends with the second named by NotAfter: a nanosecond, half a second later it is over
+		{"a-nanosecond-after", na.Add(time.Nanosecond), false}, {"half-a-second-after", na.Add(500 * time.Millisecond), false}, {"a-nanosecond-before-start", nb.Add(-time.Nanosecond), false}, {"at-the-end", na, true}}
 	certKinds := []string{"valid", "valid", "empty-list", "empty-bytes", "junk", "rotating-store", "retired-field-pair", "valid-in-bundle"}
 	nc := c.N(800, 20000)
 	for k := 0; k < nc; k++ {
